@@ -5,7 +5,7 @@
 From JV Require Import Bytes Tables Utf8 Scalar Date TextTok BinPrim BufWin BinLexer BinReader SerdeShape
   TextDeCommon BinDeCommon TextDeSpec TextDeTape TextDeStream BinDeOndemand BinDeReader BinDeTape LogicDoc.
 From JV Require TextDoc BinDoc.
-From JV.proofs Require Import C10LinkProofs C10SpecProofs BinDocProofs BinDeSpecProofs TextDeTapeProofs TextDeStreamProofs.
+From JV.proofs Require Import C10LinkProofs C10SpecProofs BinDocProofs BinDeSpecProofs TextDeTapeProofs TextDeStreamProofs TextParseProofs.
 From Coq Require Import NArith ZArith Lia List Bool.
 Import ListNotations.
 Open Scope N_scope.
@@ -225,5 +225,24 @@ Section Compose.
     - unfold b. rewrite (tape_eq_spec cfg sh _ _ eq_refl Hwf Htp Hfb). symmetry. exact Hag.
     - unfold b. rewrite (ondemand_eq_spec cfg sh _ _ Hwf Hfb). symmetry. exact Hag.
     - unfold b. rewrite (reader_eq_spec cfg cap sched sh _ _ Hwf Hnf Hcap Hfb). symmetry. exact Hag.
+  Qed.
+
+  (* from the text BYTES: any layout of the text rendering (C01_parse_render) *)
+  Theorem text_bytes_bin_agree sh d e l cap sched :
+    wf_ldoc d = true -> norgb_fields d = true ->
+    shared decode pf cfg sh d -> enc_ok decode cfg e d ->
+    TextDeSpec.fits decode pf F sh (to_text d) ->
+    TextDoc.wf_doc (to_text d) -> TextDoc.wf_layout (to_text d) l ->
+    no_fail sched = true -> BinLexer.fits cap (BinDoc.enc_doc (fst (to_bin e d)) (snd (to_bin e d))) = true ->
+    let b := BinDoc.enc_doc (fst (to_bin e d)) (snd (to_bin e d)) in
+    exists t, TextTape.parse (TextDoc.render (to_text d) l) = Ok (t, TextDoc.bom l) /\
+      TextDeTape.deser_tape decode pf F sh t = BinDeTape.deser_tape cfg sh b /\
+      TextDeTape.deser_tape decode pf F sh t = BinDeOndemand.deser_ondemand cfg sh b /\
+      TextDeTape.deser_tape decode pf F sh t = BinDeReader.deser_reader cfg cap sched sh b.
+  Proof.
+    intros Hw Hn Hs He Hfit Hwt Hl Hnf Hcap b.
+    destruct (text_bin_agree sh d e cap sched Hw Hn Hs He Hfit Hnf Hcap) as (H1 & _ & H3 & H4 & H5).
+    exists (TextDoc.flatten (to_text d)). split; [apply parse_render; assumption|].
+    fold b in H3, H4, H5. rewrite H1, H3, H4, H5. auto.
   Qed.
 End Compose.
